@@ -14,7 +14,19 @@ use std::cell::RefCell;
 use std::collections::{BTreeMap, BTreeSet, HashMap};
 use vcheck::qmodel::*;
 
+unsafe extern "C" {
+    fn mallopt(param: i32, value: i32) -> i32;
+}
+
 fn main() {
+    // The engine allocates and frees multi-hundred-KB chunk buffers per query; with glibc's default
+    // thresholds every one of them is an mmap/munmap pair, which serialises 16 worker threads in
+    // the kernel.  Keep such blocks on the heap instead (affects speed only).
+    unsafe {
+        mallopt(-3, 64 << 20); // M_MMAP_THRESHOLD
+        mallopt(-1, 512 << 20); // M_TRIM_THRESHOLD
+        mallopt(-2, 16 << 20); // M_TOP_PAD
+    }
     std::process::exit(run(vcheck::entry()));
 }
 
@@ -124,9 +136,23 @@ fn disagree(g: &QGraph, ids: &IdMap, q: &Query, a: &Judged, b: &Judged) -> (bool
 // minimisation of a failing case
 // ---------------------------------------------------------------------------------------------
 
+/// (graph, lang(s), query text, panic?) -> does the failure reproduce.  Shared by all workers:
+/// minimised witnesses are tiny and recur constantly.
+static MEMO: std::sync::Mutex<Option<HashMap<(String, String, String, bool), bool>>> = std::sync::Mutex::new(None);
+
 thread_local! {
-    /// (graph, lang(s), query text) -> does the failure of the given kind reproduce
-    static MEMO: RefCell<HashMap<(String, String, String, bool), bool>> = RefCell::new(HashMap::new());
+    /// loaded databases of recently used (minimised) graphs; queries are read-only, so reuse is safe
+    static DBS: RefCell<HashMap<String, std::rc::Rc<(grafeo_engine::GrafeoDB, IdMap)>>> = RefCell::new(HashMap::new());
+}
+
+fn cached_db(g: &QGraph) -> std::rc::Rc<(grafeo_engine::GrafeoDB, IdMap)> {
+    DBS.with(|m| {
+        let mut m = m.borrow_mut();
+        if m.len() > 256 {
+            m.clear();
+        }
+        m.entry(g.pretty()).or_insert_with(|| std::rc::Rc::new(load(g))).clone()
+    })
 }
 
 struct Minimiser {
@@ -137,10 +163,11 @@ impl Minimiser {
     fn fails(&mut self, g: &QGraph, q: &Query, langs: &[Lang], kind: &'static str) -> bool {
         let Some(text) = render(q, Lang::Gql) else { return false };
         let key = (g.pretty(), langs.iter().map(|l| l.name()).collect::<Vec<_>>().join("+"), text, kind == "panic");
-        if let Some(v) = MEMO.with(|m| m.borrow().get(&key).copied()) {
+        if let Some(v) = MEMO.lock().unwrap().get_or_insert_with(HashMap::new).get(&key).copied() {
             return v;
         }
-        let (db, ids) = load(g);
+        let dbi = cached_db(g);
+        let (db, ids) = (&dbi.0, dbi.1.clone());
         let s = db.session();
         self.execs += 1;
         let v = if langs.len() == 1 {
@@ -155,13 +182,14 @@ impl Minimiser {
             let b = judge(g, &ids, &s, q, langs[1]);
             disagree(g, &ids, q, &a, &b).1
         };
-        MEMO.with(|m| {
-            let mut m = m.borrow_mut();
-            if m.len() > 400_000 {
+        {
+            let mut m = MEMO.lock().unwrap();
+            let m = m.get_or_insert_with(HashMap::new);
+            if m.len() > 2_000_000 {
                 m.clear();
             }
             m.insert(key, v);
-        });
+        }
         v
     }
     fn minimise(&mut self, g: &QGraph, q: &Query, langs: &[Lang], kind: &'static str) -> (QGraph, Query) {
@@ -330,9 +358,9 @@ fn run_graph(gi: usize, g: &QGraph, plan: &Plan) -> Shard {
                     let (mkind, mdetail) = if mg == *g && mq == *q {
                         (*kind, detail.clone())
                     } else {
-                        let (db2, ids2) = load(&mg);
-                        let s2 = db2.session();
-                        match judge(&mg, &ids2, &s2, &mq, lang) {
+                        let dbi = cached_db(&mg);
+                        let s2 = dbi.0.session();
+                        match judge(&mg, &dbi.1, &s2, &mq, lang) {
                             Judged::Bad { kind, detail, .. } => (kind, detail),
                             _ => (*kind, detail.clone()),
                         }
@@ -361,10 +389,10 @@ fn run_graph(gi: usize, g: &QGraph, plan: &Plan) -> Shard {
                         let name = format!("{}+{}", langs[0].name(), langs[1].name());
                         let sig = signature(&name, "language-disagreement", &mg, &mq);
                         let case = case_json(&mg, &mq, &langs, "language-disagreement");
-                        let (db2, ids2) = load(&mg);
-                        let s2 = db2.session();
-                        let ra = judge(&mg, &ids2, &s2, &mq, langs[0]);
-                        let rb = judge(&mg, &ids2, &s2, &mq, langs[1]);
+                        let dbi = cached_db(&mg);
+                        let s2 = dbi.0.session();
+                        let ra = judge(&mg, &dbi.1, &s2, &mq, langs[0]);
+                        let rb = judge(&mg, &dbi.1, &s2, &mq, langs[1]);
                         sh.violation(sig, case, format!("{name} on {} :: {:?} -> {:?} / {:?} -> {:?}", mg.pretty(), render(&mq, langs[0]), ra.rows(), render(&mq, langs[1]), rb.rows()));
                     }
                 }
